@@ -798,6 +798,8 @@ def _r8_phi_limit(F, R):
     f = fn(F, "Phi_over_lambda_2")
     E2 = Evaluator(F, inline=lambda n_, g: bool(re.search(r"::(sqr)$", n_)), max_depth=2)
     v2, _ = E2.function_value(f)
+    from .rules_c01 import hoist_ites
+    v2 = hoist_ites(v2)          # `c ? limit : generic` inside the returned expression is the same regime split
     lim = [val for fa, val in leaves(v2) if true_conds(fa)]
     try:
         if len(lim) != 1:
@@ -812,6 +814,7 @@ def _r8_phi_limit(F, R):
     # ---- phi_over_y ------------------------------------------------------------------------------------------------------
     f = fn(F, "phi_over_y")
     v3, _ = E2.function_value(f)
+    v3 = hoist_ites(v3)
     cases = [(fa, val) for fa, val in leaves(v3) if true_conds(fa)]
     pn = [p_["name"] for p_ in f["params"]]          # (xu, xd); Phi(xd, xu, 1)
     try:
